@@ -14,6 +14,8 @@ package fasthttp
 
 import (
 	"bufio"
+	"crypto/tls"
+	"errors"
 	"fmt"
 	"io"
 	"math/rand"
@@ -36,6 +38,20 @@ type c12Conn struct {
 	rec    *c12Rec
 	wrote  atomic.Bool
 	closes atomic.Int32
+	opaque bool // TLS: what is written is not readable here
+	// faults: Close closes the connection but reports an error; Read / Write fail from the n-th call on
+	closeErr            bool
+	failRead, failWrite int32 // 0 = never
+	nread, nwrite       atomic.Int32
+}
+
+var errC12Fault = errors.New("c12: injected connection fault")
+
+func (c *c12Conn) Read(p []byte) (int, error) {
+	if c.failRead > 0 && c.nread.Add(1) >= c.failRead {
+		return 0, errC12Fault
+	}
+	return c.Conn.Read(p)
 }
 
 type c12NoIPAddr struct{}
@@ -63,16 +79,28 @@ func c12Status(p []byte) int {
 }
 
 func (c *c12Conn) Write(p []byte) (int, error) {
-	if c.wrote.CompareAndSwap(false, true) {
+	if !c.opaque && c.wrote.CompareAndSwap(false, true) {
 		c.rec.emit(vfRec{"ev": "conn.write", "c": c.id, "code": c12Status(p)}, 0)
+	}
+	if c.failWrite > 0 && c.nwrite.Add(1) >= c.failWrite {
+		return 0, errC12Fault
 	}
 	return c.Conn.Write(p)
 }
 
 func (c *c12Conn) Close() error {
+	if c.opaque && c.wrote.CompareAndSwap(false, true) {
+		// under TLS the status of an error response cannot be read off the wire here (and the write may not
+		// have happened at all if the handshake failed): code -1 = unknown; the client checks what it decrypts
+		c.rec.emit(vfRec{"ev": "conn.write", "c": c.id, "code": -1}, 0)
+	}
 	c.rec.emit(vfRec{"ev": "conn.close", "c": c.id}, c.id) // logged before the close takes effect
 	c.closes.Add(1)                                        // (the quiescence test reads this: only after the event is in the log)
-	return c.Conn.Close()
+	err := c.Conn.Close()
+	if c.closeErr {
+		return errC12Fault // the connection is closed all the same
+	}
+	return err
 }
 
 func c12Gid() uint64 {
@@ -100,10 +128,34 @@ func c12ConnOf(x any) *c12Conn {
 		if cc, ok := in.(*c12Conn); ok {
 			return cc
 		}
+	case *perIPTLSConn:
+		v.lock.Lock()
+		in := v.Conn
+		v.lock.Unlock()
+		if in != nil {
+			return c12ConnOf(in)
+		}
+	case *tls.Conn:
+		return c12ConnOf(v.NetConn())
 	case *hijackConn:
 		return c12ConnOf(v.Conn)
 	}
 	return nil
+}
+
+var c12TLSOnce sync.Once
+var c12TLSCfg *tls.Config
+
+func c12ServerTLS() *tls.Config {
+	c12TLSOnce.Do(func() {
+		certPEM, keyPEM, err := GenerateTestCertificate("localhost")
+		if err == nil {
+			if cert, err2 := tls.X509KeyPair(certPEM, keyPEM); err2 == nil {
+				c12TLSCfg = &tls.Config{Certificates: []tls.Certificate{cert}}
+			}
+		}
+	})
+	return c12TLSCfg
 }
 
 type c12Rec struct {
@@ -252,12 +304,16 @@ type c12Listener struct {
 	closed chan struct{}
 	once   sync.Once
 	rec    *c12Rec
+	tlsCfg *tls.Config // non-nil: the listener hands out TLS server connections
 }
 
 func (l *c12Listener) Accept() (net.Conn, error) {
 	select {
 	case c := <-l.ch:
 		l.rec.emit(vfRec{"ev": "arrive", "c": c.id, "ip": c.ip, "entry": "serve"}, c.id)
+		if l.tlsCfg != nil {
+			return tls.Server(c, l.tlsCfg), nil
+		}
 		return c, nil
 	case <-l.closed:
 		return nil, io.EOF
@@ -272,13 +328,15 @@ type c12Cfg struct {
 	keep        bool
 	reduceMem   bool
 	nconns      int
+	tls         bool // TLS connections (perIPTLSConn when MaxConnsPerIP > 0)
 }
 
 type c12Client struct {
-	id, ip   int
-	statuses []int
-	eofAfter bool // the server closed the connection after the last response read
-	err      string
+	id, ip     int
+	statuses   []int
+	eofAfter   bool // the server closed the connection after the last response read
+	eofUnknown bool
+	err        string
 }
 
 // c12RunOne runs one execution; returns number of events and a direct-check failure (key, detail).
@@ -358,7 +416,7 @@ func c12RunOne(t *testing.T, rng *rand.Rand, tw *vfTraceWriter, trNo int, cfg c1
 		Logger:                c12NopLogger{},
 	}
 	rec.srv = s
-	tw.Emit(vfRec{"ev": "init", "nc": 8, "nip": 2, "conc": cfg.conc, "maxip": cfg.maxip, "listening": listening,
+	tw.Emit(vfRec{"ev": "init", "nc": 8, "nip": 2, "tls": cfg.tls, "conc": cfg.conc, "maxip": cfg.maxip, "listening": listening,
 		"tr": trNo, "keep": cfg.keep, "entry": cfg.entry})
 	VerifHook = rec.hook
 	defer func() { VerifHook = nil }()
@@ -367,6 +425,9 @@ func c12RunOne(t *testing.T, rng *rand.Rand, tw *vfTraceWriter, trNo int, cfg c1
 	serveDone := make(chan error, 1)
 	if cfg.entry == "serve" {
 		ln = &c12Listener{ch: make(chan *c12Conn), closed: make(chan struct{}), rec: rec}
+		if cfg.tls {
+			ln.tlsCfg = c12ServerTLS()
+		}
 		go func() { serveDone <- s.Serve(ln) }()
 		// wait until Serve counts itself in s.open
 		dl := time.Now().Add(5 * time.Second)
@@ -379,27 +440,40 @@ func c12RunOne(t *testing.T, rng *rand.Rand, tw *vfTraceWriter, trNo int, cfg c1
 		}
 	}
 
-	clients := make([]*c12Client, cfg.nconns+1)
-	sconns := make([]*c12Conn, cfg.nconns+1)
+	const nprobe = 2 // after quiescence one more connection per address must be admitted again
+	clients := make([]*c12Client, cfg.nconns+nprobe+1)
+	sconns := make([]*c12Conn, cfg.nconns+nprobe+1)
 	var cwg, swg sync.WaitGroup
-	for id := 1; id <= cfg.nconns; id++ {
-		ip := rng.Intn(3) // 0 = no IPv4
-		if rng.Intn(4) != 0 && ip == 0 {
-			ip = 1 + rng.Intn(2)
-		}
-		cl := &c12Client{id: id, ip: ip}
-		clients[id] = cl
-		crng := rand.New(rand.NewSource(rng.Int63()))
-		startDelay := time.Duration(rng.Intn(1500)) * time.Microsecond
+	// launch starts client cl: its connection arrives at the server (listener or ServeConn) after delay
+	// and script plays on the client side
+	launch := func(cl *c12Client, delay time.Duration, faults bool, crng *rand.Rand, script func(*rand.Rand, net.Conn, *c12Client)) {
 		cwg.Add(1)
 		go func() {
 			defer cwg.Done()
-			time.Sleep(startDelay)
+			time.Sleep(delay)
 			pcs := fasthttputil.NewPipeConns()
-			sc := &c12Conn{Conn: pcs.Conn1(), id: cl.id, ip: cl.ip, rec: rec}
+			sc := &c12Conn{Conn: pcs.Conn1(), id: cl.id, ip: cl.ip, rec: rec, opaque: cfg.tls}
+			if faults { // connection faults at chosen points: Close reporting an error, Read / Write failing
+				sc.closeErr = crng.Intn(3) == 0
+				if crng.Intn(8) == 0 {
+					sc.failRead = int32(1 + crng.Intn(4))
+				}
+				if crng.Intn(8) == 0 {
+					sc.failWrite = int32(1 + crng.Intn(3))
+				}
+			}
 			sconns[cl.id] = sc
-			cc := pcs.Conn2()
-			defer cc.Close()
+			raw := pcs.Conn2()
+			var cc net.Conn = raw
+			if cfg.tls {
+				cc = tls.Client(raw, &tls.Config{InsecureSkipVerify: true})
+			}
+			defer func() {
+				if cfg.tls && crng.Intn(2) == 0 {
+					cc.Close() // with close_notify
+				}
+				raw.Close() // (else: the peer just disappears, the server's close_notify cannot be sent)
+			}()
 			if cfg.entry == "serve" {
 				ln.ch <- sc
 			} else {
@@ -407,11 +481,24 @@ func c12RunOne(t *testing.T, rng *rand.Rand, tw *vfTraceWriter, trNo int, cfg c1
 				go func() {
 					defer swg.Done()
 					rec.emit(vfRec{"ev": "arrive", "c": sc.id, "ip": sc.ip, "entry": "sc"}, sc.id)
-					s.ServeConn(sc)
+					if cfg.tls {
+						s.ServeConn(tls.Server(sc, c12ServerTLS()))
+					} else {
+						s.ServeConn(sc)
+					}
 				}()
 			}
-			c12Script(crng, cc, cl)
+			script(crng, cc, cl)
 		}()
+	}
+	for id := 1; id <= cfg.nconns; id++ {
+		ip := rng.Intn(3) // 0 = no IPv4
+		if rng.Intn(4) != 0 && ip == 0 {
+			ip = 1 + rng.Intn(2)
+		}
+		cl := &c12Client{id: id, ip: ip}
+		clients[id] = cl
+		launch(cl, time.Duration(rng.Intn(1500))*time.Microsecond, true, rand.New(rand.NewSource(rng.Int63())), c12Script)
 	}
 	cwg.Wait()
 	swg.Wait()
@@ -433,39 +520,67 @@ func c12RunOne(t *testing.T, rng *rand.Rand, tw *vfTraceWriter, trNo int, cfg c1
 		defer s.perIPConnCounter.lock.Unlock()
 		return len(s.perIPConnCounter.m)
 	}
-	key, detail := "", ""
-	dl := time.Now().Add(6 * time.Second)
-	for {
-		conc := s.GetCurrentConcurrency()
-		openRaw := s.open.Load()
-		getOpen := s.GetOpenConnectionsCount()
-		pip := perIPTotal()
-		b := busy()
-		unclosed := 0
-		for id := 1; id <= cfg.nconns; id++ {
-			if sconns[id].closes.Load() == 0 {
-				unclosed++ // still served, or in the hands of a hijack handler / the application
+	quiesce := func(nc int) (key, detail string) {
+		dl := time.Now().Add(20 * time.Second)
+		for {
+			conc := s.GetCurrentConcurrency()
+			openRaw := s.open.Load()
+			getOpen := s.GetOpenConnectionsCount()
+			pip := perIPTotal()
+			b := busy()
+			unclosed := 0
+			for id := 1; id <= nc; id++ {
+				if sconns[id].closes.Load() == 0 {
+					unclosed++ // still served, or in the hands of a hijack handler / the application
+				}
 			}
-		}
-		ok := conc == 0 && int(openRaw) == listening && pip == 0 && b == 0 && unclosed == 0
-		if cfg.entry == "serve" {
-			ok = ok && getOpen == 0
-		}
-		if ok {
-			break
-		}
-		if time.Now().After(dl) {
-			if unclosed > 0 {
-				key = fmt.Sprintf("never-closed entry=%s keep=%v", cfg.entry, cfg.keep)
-				detail = fmt.Sprintf("%d connection(s) were neither closed by the server nor released by a hijack handler 6s after all clients had gone", unclosed)
+			ok := conc == 0 && int(openRaw) == listening && pip == 0 && b == 0 && unclosed == 0
+			if cfg.entry == "serve" {
+				ok = ok && getOpen == 0
+			}
+			if ok {
 				break
 			}
-			key = fmt.Sprintf("quiescence entry=%s conc=%v open=%v getopen=%v perip=%v", cfg.entry, conc != 0, int(openRaw) != listening, cfg.entry == "serve" && getOpen != 0, pip != 0)
-			detail = fmt.Sprintf("after every connection was closed or hijacked and released: GetCurrentConcurrency=%d s.open=%d (listening %d) GetOpenConnectionsCount=%d per-IP entries=%d busy workers=%d",
-				conc, openRaw, listening, getOpen, pip, b)
-			break
+			if time.Now().After(dl) {
+				if unclosed > 0 {
+					key = fmt.Sprintf("never-closed entry=%s keep=%v", cfg.entry, cfg.keep)
+					detail = fmt.Sprintf("%d connection(s) were neither closed by the server nor released by a hijack handler 20s after all clients had gone", unclosed)
+					break
+				}
+				key = fmt.Sprintf("quiescence entry=%s conc=%v open=%v getopen=%v perip=%v", cfg.entry, conc != 0, int(openRaw) != listening, cfg.entry == "serve" && getOpen != 0, pip != 0)
+				detail = fmt.Sprintf("after every connection was closed or hijacked and released: GetCurrentConcurrency=%d s.open=%d (listening %d) GetOpenConnectionsCount=%d per-IP entries=%d busy workers=%d",
+					conc, openRaw, listening, getOpen, pip, b)
+				break
+			}
+			time.Sleep(200 * time.Microsecond)
 		}
-		time.Sleep(200 * time.Microsecond)
+		return
+	}
+	key, detail := quiesce(cfg.nconns)
+	if key == "" && cfg.maxip > 0 {
+		// the counters balance: a further connection from each address is admitted again
+		for ip := 1; ip <= nprobe; ip++ {
+			cl := &c12Client{id: cfg.nconns + ip, ip: ip}
+			clients[cl.id] = cl
+			launch(cl, 0, false, rand.New(rand.NewSource(int64(ip))), func(_ *rand.Rand, cc net.Conn, cl *c12Client) {
+				cc.Write([]byte("GET /w?d=0 HTTP/1.1\r\nHost: x\r\n\r\n"))
+				var resp Response
+				cc.SetReadDeadline(time.Now().Add(20 * time.Second))
+				if err := resp.Read(bufio.NewReader(cc)); err == nil {
+					cl.statuses = append(cl.statuses, resp.StatusCode())
+				}
+			})
+			cwg.Wait()
+			swg.Wait()
+			if len(cl.statuses) == 1 && cl.statuses[0] == StatusTooManyRequests {
+				key = fmt.Sprintf("perip-not-released entry=%s tls=%v", cfg.entry, cfg.tls)
+				detail = fmt.Sprintf("every earlier connection had been closed, yet a new connection from address %d was turned away with 429 (MaxConnsPerIP=%d)", ip, cfg.maxip)
+				break
+			}
+		}
+		if key == "" {
+			key, detail = quiesce(cfg.nconns + nprobe)
+		}
 	}
 	if ln != nil {
 		ln.Close()
@@ -501,7 +616,7 @@ func c12RunOne(t *testing.T, rng *rand.Rand, tw *vfTraceWriter, trNo int, cfg c1
 	for id := 1; id <= cfg.nconns; id++ {
 		cl := clients[id]
 		for i, st := range cl.statuses {
-			if (st == StatusTooManyRequests || st == StatusServiceUnavailable) && (i != 0 || !cl.eofAfter || len(cl.statuses) != 1) {
+			if (st == StatusTooManyRequests || st == StatusServiceUnavailable) && (i != 0 || (!cl.eofAfter && !cl.eofUnknown) || len(cl.statuses) != 1) {
 				return rec.nev, fmt.Sprintf("reject-not-closed status=%d entry=%s", st, cfg.entry),
 					fmt.Sprintf("conn %d: statuses %v eofAfter=%v: a rejection must be the only response and be followed by close", id, cl.statuses, cl.eofAfter)
 			}
@@ -524,7 +639,10 @@ func c12Script(rng *rand.Rand, cc net.Conn, cl *c12Client) {
 	probeEOF := func() {
 		cc.SetReadDeadline(time.Now().Add(4 * time.Second))
 		_, err := br.Peek(1)
-		cl.eofAfter = err != nil && !strings.Contains(err.Error(), "timeout")
+		cl.eofAfter = err != nil
+		if err != nil && strings.Contains(err.Error(), "timeout") {
+			cl.eofAfter, cl.eofUnknown = false, true // the wait ran out: no statement either way
+		}
 	}
 	readResp := func() bool {
 		var resp Response
@@ -616,7 +734,7 @@ func TestVerifC12Limits(t *testing.T) {
 		tw := vfNewTrace(t, name)
 		for i := 1; i <= ntr; i++ {
 			cfg := c12Cfg{entry: f[0], conc: conc, maxip: maxip, keep: rng.Intn(2) == 0, reduceMem: rng.Intn(4) == 0,
-				nconns: 3 + rng.Intn(6)}
+				nconns: 3 + rng.Intn(4), tls: rng.Intn(4) == 0}
 			t0 := time.Now()
 			n, key, detail := c12RunOne(t, rng, tw, i, cfg)
 			if os.Getenv("VERIF_C12_DEBUG") != "" {
